@@ -690,7 +690,9 @@ static inline bool LPFhasKeyword(char*& pos, const char* keyword)
          i++;
 
          // Here we assumed that we have a ']' for the '['.
-         while((tolower(pos[k]) == keyword[i]) && (pos[k] != '\0'))
+         // the ']' that closes the optional part is syntax, not a character to match (otherwise "maximize]" walks past
+         // the end of the keyword)
+         while((keyword[i] != ']') && (tolower(pos[k]) == keyword[i]) && (pos[k] != '\0'))
          {
             k++;
             i++;
